@@ -179,6 +179,13 @@ def run(chk, binary):
         n = 1 if mk in ("0", "^", "$") else rng_o.choice([1, 1, 2, 3])
         k = (str(n) if n > 1 else "") + op + (mk if mk else op) + ("Z<esc>" if op == "c" else "")
         cls = f"op {op} + {'N' if n > 1 else ''}{mk if mk else op}"
+        if rng_o.random() < 0.15:
+            # the one-key forms: x = dl, X = dh, D = d$, C = c$, s = cl, S = cc, Y = yy
+            alias, (op, mk) = rng_o.choice([("x", ("d", "l")), ("X", ("d", "h")), ("D", ("d", "$")), ("C", ("c", "$")), ("s", ("c", "l")), ("S", ("c", None)), ("Y", ("y", None))])
+            if alias in ("D", "C"):
+                n = 1
+            k = (str(n) if n > 1 else "") + alias + ("Z<esc>" if op == "c" else "")
+            cls = f"op {'N' if n > 1 else ''}{alias}"
         cases.append({"text": flat + "\n", "cursor": rng_o.choice(cursors(flat)), "keys": [k], "cls": cls, "family": "OP", "classes": [cls], "opcase": (op, mk, n, flat)})
     vim = VR.run_vim(cases)
     ans = server_map(binary, [{"op": "keys", "text": c["text"], "cursor": c["cursor"], "keys": ["".join(c["keys"])], "last_only": True} for c in cases])
